@@ -133,7 +133,7 @@ func (b *WvttBox) EncodeSW(sw bits.SliceWriter) error {
 			return err
 		}
 	}
-	return err
+	return sw.AccError()
 }
 
 // Info - write box-specific information
